@@ -1,3 +1,5 @@
+//go:build go1.25
+
 package props
 
 // c20_attempt — model-based stepper for bigbuff.LinearAttempt inside a synctest bubble (property C20).
